@@ -89,6 +89,23 @@ CHECKS.update({
          "DESIGN.md §4 C10"),
 })
 
+# third session: what was added to each check (appended to the level text)
+ADDENDA = {
+ "C01": "Third session: types that hold a reference (views, holders by value, references to views), legal `&mut` injection, 'wild' applications (1-3 random edits of the ownership structure; accepted => must compile), naming / ordering stress, generic constructors incl. one with a lifetime; a failing SDK build is attributed to one sub-application, shrunk, and keyed by rustc's normalised first error. Two compiler defects found this way were repaired.",
+ "C02": "Third session: the class now contains lifetime-carrying types whose referent is borrow-only / Copy / clone-if-necessary, a generic constructor with a lifetime argument, constructor-specific error handlers, constructors and error handlers written as methods; one shrunk report per distinct rejection verdict.",
+ "C03": "Third session: singletons built from transients with an oracle over the events logged while the application state is built (start-up stress family), views, `&mut` injection and wild applications.",
+ "C04": "Third session: generic wrappers carry provenance; a generic constructor and a concrete constructor for one instantiation are registered in different blueprints and the scope model says which one a route gets. One finding is recorded as open (components registered in an ancestor blueprint resolve constructors in their own scope) and kept out of the generated class; its reproduction is replayed by every run.",
+ "C05": "Third session: chains of 11-16 middlewares of one kind (two-digit positions).",
+ "C06": "Third session: error handlers attached to a constructor registration (they take precedence), error handlers written as methods of the error type or of an injected singleton.",
+ "C07": "Third session: guarded blueprints that hold only nested blueprints, un-prefixed nested fallbacks below a guarded blueprint, 54 plain + 18 guarded tables per quick run.",
+ "C08": "Third session: cross-scope variant of the observer rule (root observer, nested fallible constructor), path-parameter rule planted on middlewares incl. wrapping ones, generic singleton constructor registered in two blueprints. Two compiler defects found this way were repaired.",
+ "C09": "Third session: route tables as variants, observer-only dependency cycles next to an infallible handler with a fallible input, 40 pairs per quick run.",
+ "C10": "Third session: the stale-file step replaces one byte (same length: last bytes / middle / first byte) or appends one; ordering-, stage- and naming-stress applications; 30 applications per quick run.",
+ "C12": "Third session: a second campaign with a store wrapper that fails / wipes records on schedule, two server-side reads polled concurrently, and a first request served by the previous deployment (the rule's fallback key and algorithm); its oracle reads the client-side state out of the emitted cookie itself.",
+ "C16": "Third session: Forced shutdown while a handler keeps a worker thread busy for 1.5 s.",
+ "C19": "Third session: part (a) persists over files that hold other content of the same or another length; part (b) also runs failure plans, so the error-handler attributes (which input is the error, methods with a receiver, handlers attached to constructors) are judged end to end.",
+}
+
 PENDING = {}  # id -> reason, filled below for everything not in CHECKS
 
 props = [json.loads(l)["id"] for l in open("/verif/properties.jsonl")]
@@ -137,7 +154,7 @@ for p in props:
             "evidence_file": f"/verif/evidence/{p}.json",
             "replay_cmd_template": f"./check {p} --replay {{path}}",
             "engine": eng,
-            "level_claimed": {"category": "exploration", "text": text, "design_ref": ref},
+            "level_claimed": {"category": "exploration", "text": (text + " " + ADDENDA.get(p, "")).strip(), "design_ref": ref + (", §7.8" if p in ADDENDA else "")},
             "level_note": note,
             "technique": tech,
         })
